@@ -51,7 +51,7 @@ def lockstep_compare(runs):
         if d:
             div.append({"kind": k, "case": strip(c), "divergence": d})
     harness = [{"kind": k, "case": strip(c), "verdict": r["verdict"], "error": (r.get("error") or "")[-800:]}
-               for k, c, r in runs if r["verdict"] not in ("done", "deadlock", "quiescent")]
+               for k, c, r in runs if r["verdict"] not in ("done", "deadlock", "quiescent", "steplimit")]
     return len(ok), div, harness
 
 
@@ -104,7 +104,7 @@ def concurrent_check(res, pid, cone, kinds, n_quick, n_thorough, oracle, known, 
                 pr["broken"].append({"kind": "case-eval", "error": str(ex)[-1500:]})
     fails, known_hits = [], {}
     for k, c, r in runs:
-        if r["verdict"] not in ("done", "deadlock", "quiescent"):
+        if r["verdict"] not in ("done", "deadlock", "quiescent", "steplimit"):
             continue
         why = oracle(k, c, r)
         if why:
